@@ -67,11 +67,15 @@ def snap_play(env):
     return d
 
 
+GAP = 'harness-gap'
+
+
 class Observations:
     """Everything observed inside one bundled client."""
 
     def __init__(self, seat):
         self.seat = seat
+        self.gaps = 0                # observation points the harness could not read
         self.auction_points = []     # (board_idx, snapshot) at every own call
         self.play_points = []        # (board_idx, snapshot, offered set, pool 'hand'|'dummy')
         self.contracts = []          # snap_contract of Client.bidding_phase() per board
@@ -251,18 +255,39 @@ class BundledPlayer:
                     outer.verdict = 'seated'
                     outer._verdict()
 
+            # The observation code below reads attributes of the client under test; if a
+            # (behaviour-preserving) change renames one of them that is a gap in the harness's
+            # view, never an exception inside the client: GAP entries are skipped by the oracle
+            # and counted in the evidence.
             def _deal(self):
                 super()._deal()
-                obs.deal_info.append((self.board_num, seat_of(self.dealer), self.vul.value,
-                                      sorted(card_of(c) for c in self.hand_set)))
+                try:
+                    obs.deal_info.append((self.board_num, seat_of(self.dealer), self.vul.value,
+                                          sorted(card_of(c) for c in self.hand_set)))
+                except Exception:
+                    obs.deal_info.append(GAP)
+                    obs.gaps += 1
 
             def bidding_phase(self):
                 n0 = len(obs.auction_envs)
                 c = super().bidding_phase()
-                obs.contracts.append(snap_contract(c))
-                env = obs.auction_envs[-1] if len(obs.auction_envs) > n0 else None
-                obs.final_auctions.append(snap_auction(env) if env is not None else None)
-                if c.is_passed_out():
+                try:
+                    obs.contracts.append(snap_contract(c))
+                except Exception:
+                    obs.contracts.append(GAP)
+                    obs.gaps += 1
+                try:
+                    env = obs.auction_envs[-1] if len(obs.auction_envs) > n0 else None
+                    obs.final_auctions.append(snap_auction(env) if env is not None else None)
+                except Exception:
+                    obs.final_auctions.append(None)
+                    obs.gaps += 1
+                try:
+                    passed_out = c.is_passed_out()
+                except Exception:
+                    passed_out = False
+                    obs.gaps += 1
+                if passed_out:
                     obs.final_plays.append(None)
                     obs.board += 1
                 return c
@@ -272,8 +297,12 @@ class BundledPlayer:
                 try:
                     super().playing_phase(contract)
                 finally:
-                    env = obs.play_envs[-1] if len(obs.play_envs) > n0 else None
-                    obs.final_plays.append(snap_play(env) if env is not None else None)
+                    try:
+                        env = obs.play_envs[-1] if len(obs.play_envs) > n0 else None
+                        obs.final_plays.append(snap_play(env) if env is not None else None)
+                    except Exception:
+                        obs.final_plays.append(None)
+                        obs.gaps += 1
                     obs.board += 1
 
         try:
